@@ -1,5 +1,5 @@
 (* Props/C10.v — property theorems only (model: Syntax/CoreGrammar.v, core token fragment). *)
-From Verif Require Import Base.Str Syntax.CoreGrammar Proofs.CoreGrammarProofs Proofs.CoreGrammarPrefixBounded.
+From Verif Require Import Base.Str Syntax.CoreGrammar Proofs.CoreGrammarProofs Proofs.CoreGrammarPrefixBounded Proofs.CoreGrammarFuel.
 
 (* posErr's Incomplete flag = input exhausted inside an open statement *)
 Theorem C10_posErr_incomplete_iff_eof_in_open_stmt : forall (A : Type) o cur c p,
@@ -29,15 +29,31 @@ Theorem C10_eof_errors_incomplete : forall px fuel,
 Proof. exact eof_all. Qed.
 Print Assumptions C10_eof_errors_incomplete.
 
+(* ---- fuel ----
+   The model uses explicit fuel (12 * length + 16 for parse_core).  It never runs out, and a larger fuel gives the
+   same result (fuel monotonicity for all 15 functions: mono_all; sufficiency with per-function bounds: suf_all,
+   using the length invariant inv_all). *)
+Theorem C10_parse_core_never_out_of_fuel : forall px ts, parse_core px ts <> PFuel.
+Proof. exact parse_core_no_fuel. Qed.
+Print Assumptions C10_parse_core_never_out_of_fuel.
+
+Theorem C10_parse_core_fuel_irrelevant : forall px ts f, fuel_for (norm ts) <= f ->
+  stmts px f 0 QNone [] true false (norm ts) = parse_core px ts.
+Proof. exact parse_core_fuel_irrelevant. Qed.
+Print Assumptions C10_parse_core_fuel_irrelevant.
+
 (* ---- prefix clause on the model ----
-   C10_prefix_monotone: for ALL token lists q, r, both variants and every fuel: if the parser accepts q ++ r then on
-   the prefix q (cut at ANY token boundary, hence at every newline token) it succeeds, or fails with an error marked
-   Incomplete, or runs out of fuel.  Proved by a mutual induction over the 15 parsing functions (lockstep until q is
-   used up, then C10_eof_errors_incomplete).  PARTIAL in one respect only: the out-of-fuel alternative is not
-   excluded (no fuel-monotonicity lemma), so the statement is about [stmts px fuel] with the same fuel on both
-   inputs rather than about parse_core's own fuel_for; the code leg never observes PFuel (it would be a mismatch).
-   Also proved: the same statement for parse_core itself on every token list of length <= 4 (exhaustive), and the
-   lemma for the simple-command loop / the stmts step as separate theorems. *)
+   C10_prefix_monotone_parse_core: for ALL token lists q, r and both variants: if parse_core accepts q ++ r then on
+   the prefix q (cut at ANY token boundary, hence at every newline token) it succeeds or fails with an error marked
+   Incomplete.  (Mutual induction over the 15 parsing functions: lockstep until q is used up, then
+   C10_eof_errors_incomplete; fuel handled by the two theorems above; the lexer's merging of newline runs commutes
+   with taking a prefix: norm_app_exists.)  C10_prefix_monotone is the underlying statement for an explicit fuel. *)
+Theorem C10_prefix_monotone_parse_core : forall px q r,
+  accepted (parse_core px (q ++ r)) = true ->
+  accepted (parse_core px q) = true \/ incomplete (parse_core px q) = true.
+Proof. exact prefix_parse_core. Qed.
+Print Assumptions C10_prefix_monotone_parse_core.
+
 Theorem C10_prefix_monotone : forall px fuel q r,
   accepted (stmts px fuel 0 QNone [] true false (q ++ r)) = true ->
   let res := stmts px fuel 0 QNone [] true false q in
@@ -66,8 +82,14 @@ Proof. exact prefix4. Qed.
 Print Assumptions C10_prefix_ok_or_incomplete_upto4_partial.
 
 (* ---- position clause on the model ----
-   Full statement aimed at (NOT proved for unbounded length): forall posix ts c p i,
-     parse_core posix ts = PErr c p i -> 1 <= p <= length (norm ts).  Proved exhaustively up to length 4. *)
+   C10_error_pos_inside: for ALL token lists, the position of every error (counted as the number of tokens that
+   remained when the token it points at was current) is at most the number of tokens of the (newline-merged) input,
+   i.e. the error points inside the input.  (Invariant inv_all over the 15 functions: rests never grow, positions
+   passed down and reported are bounded.)  The exhaustive version below additionally gives 1 <= p. *)
+Theorem C10_error_pos_inside : forall px ts c p i, parse_core px ts = PErr c p i -> p <= length (norm ts).
+Proof. exact error_pos_inside. Qed.
+Print Assumptions C10_error_pos_inside.
+
 Theorem C10_error_pos_inside_upto4_partial : forall posix ts c p i, length ts <= 4 ->
   parse_core posix ts = PErr c p i -> 1 <= p <= length (norm ts).
 Proof. exact pos4. Qed.
